@@ -546,6 +546,11 @@ Definition coarseW (fixed : bool) (prod : producer) (c : nat) (s : wstate) : opt
   | _ => None
   end.
 
+(* A thread pool without a free worker (more event streams open than the pool has workers, the others
+   idle): the relay's job stays queued, step 0 is never available.  Everything else as coarseW. *)
+Definition coarseWsat (fixed : bool) (prod : producer) (c : nat) (s : wstate) : option wstate :=
+  match c with 0 => None | _ => coarseW fixed prod c s end.
+
 Definition coarseS (prod : producer) (c : nat) (s : sstate) : option sstate :=
   match c with
   | 1 => stepS prod LC s
